@@ -51,7 +51,17 @@ Proof.
   cbn [c_digits c_width c_height c_data] in T. rewrite T, Hv. reflexivity.
 Qed.
 
+(* what a user reads off the card: the translated printer (to_printer, then next until None) yields exactly
+   the printed strings of the model, one per cell in row-major order, each digit in decimal; never a panic
+   for digit_count >= 1 (digit_count = 0 is the known finding F5) *)
+Theorem C18_source_printer : forall c, 1 <= c_digits c ->
+  exists st, tr_matrix_to_printer (c_digits c) (c_width c) (c_height c) (c_data c) = Some st /\
+             printer_strings c = Ok (match drain (S (length (c_data c))) st with Some r => r | None => [] end) /\
+             drain (S (length (c_data c))) st <> None.
+Proof. exact matrix_source_printer. Qed.
+
 Print Assumptions C18_source_lookup.
+Print Assumptions C18_source_printer.
 Print Assumptions C18_source_verify_iff.
 Print Assumptions C18_source_coordinates.
 Print Assumptions C18_source_round.
